@@ -88,6 +88,11 @@ def prove(ctx):
         else:
             n += 1
     ctx.discharged = n if not bad else 0
+    if ctx.tier == "thorough" and not ctx.proof_problems:
+        ok3, log3 = build.coqchk(ctx.pid)
+        ctx.extra["coqchk"] = {"ok": ok3, "tail": log3[-1500:]}
+        if not ok3:
+            ctx.proof_problems.append("coqchk rejects Properties_%s: %s" % (ctx.pid, log3[-400:]))
     # theorems the plugin requires to be present (so that deleting one is noticed)
     for t in getattr(p, "REQUIRED_THEOREMS", []):
         if t not in thms:
@@ -363,6 +368,19 @@ def main(argv):
             cases = plugin.generate(ctx.rng, a.tier)
         if cases:
             standard_cases(ctx, cases)
+        if (not a.replay and a.tier == "quick" and (ctx.proof_problems or ctx.corr_diffs) and not ctx.violations
+                and hasattr(plugin, "generate")):
+            # a proof or the correspondence no longer checks: widen the search for a concrete failing input
+            try:
+                import random as _r
+                more = plugin.generate(_r.Random(ctx.seed * 7919 + 17), "thorough")[:int(getattr(plugin, "SEARCH_CASES", 3000))]
+                for i, c in enumerate(more):
+                    c.id = "s%s" % c.id
+                ctx.log("proof/correspondence broken: widening the search to %d more cases" % len(more))
+                ctx.extra["widened_search_cases"] = len(more)
+                standard_cases(ctx, more)
+            except Exception as e:
+                ctx.log("widened search failed: %r" % (e,))
         if hasattr(plugin, "histogram"):
             ctx.extra["histogram"] = plugin.histogram(cases)
         return finish(ctx)
